@@ -110,6 +110,12 @@ def wf(t):
     if isinstance(t, bv.Map):
         return (isinstance(t.key_validator, bv.String) and wf(t.key_validator)
                 and isinstance(t.value_validator, bv.Validator) and wf(t.value_validator))
+    if isinstance(t, bv.StructTree):
+        return isinstance(t.definition, type) and wf_tree_def(t.definition)
+    if isinstance(t, bv.Struct):
+        return isinstance(t.definition, type) and wf_struct_def(t.definition)
+    if isinstance(t, bv.Union):
+        return isinstance(t.definition, type) and wf_union_def(t.definition)
     return False
 
 
@@ -194,6 +200,10 @@ def valid(t, v):
         return valid_list(t, v)
     if isinstance(t, bv.Map):
         return valid_map(t, v)
+    if isinstance(t, bv.Struct):
+        return valid_struct(t, v)
+    if isinstance(t, bv.Union):
+        return valid_union(t, v)
     return False
 
 
@@ -290,3 +300,205 @@ def nullable_param_ok(v):
 def same_float(a, b):
     """identical doubles (NaN equals NaN; +0.0 and -0.0 are told apart only by sign)"""
     return (math.isnan(a) and math.isnan(b)) or a == b
+
+
+# =====================================================================================
+# Generated classes (python_types output): reflection tables and instances
+# =====================================================================================
+NOT_SET = bb.NOT_SET
+NO_DEFAULT = bb.NO_DEFAULT
+
+
+def slot_name(name):
+    return '_%s_value' % name
+
+
+def is_slot_name(n):
+    """n is '_<x>_value' for some x (the storage name of a field)"""
+    return isinstance(n, str) and n.startswith('_') and n.endswith('_value') and len(n) >= 7
+
+
+def raw_slot(v, name):
+    """the stored value of field ``name`` of struct instance ``v`` (NOT_SET when unset)"""
+    return getattr(v, slot_name(name))
+
+
+def unwrap_nullable(t):
+    if isinstance(t, bv.Nullable):
+        return t.validator
+    return t
+
+
+def is_user_validator(t):
+    return isinstance(t, (bv.Struct, bv.Union))
+
+
+def wf_attr(D, f):
+    """the descriptor of field f = (name, validator) on definition class D"""
+    a = getattr(D, f[0])
+    return (isinstance(a, bb.Attribute)
+            and is_slot_name(a.name) and a.name == slot_name(f[0])
+            and hasattr(a, 'validator') and a.validator is f[1]
+            and isinstance(a.nullable, bool) and a.nullable == isinstance(f[1], bv.Nullable)
+            and isinstance(a.user_defined, bool)
+            and a.user_defined == is_user_validator(unwrap_nullable(f[1]))
+            and hasattr(a, 'default'))
+
+
+def wf_field_shape(D, f):
+    return (isinstance(f, tuple) and len(f) == 2 and isinstance(f[0], str)
+            and isinstance(f[1], bv.Validator) and wf_attr(D, f))
+
+
+def field_index(D, n):
+    """position of the field named n in D._all_fields_ (ghost function: the
+    witness of 'every name in _all_field_names_ is the name of a field')"""
+    k = 0
+    for f in D._all_fields_:
+        if f[0] == n:
+            return k
+        k = k + 1
+    return -1
+
+
+def name_is_field(D, n):
+    return (isinstance(n, str) and 0 <= field_index(D, n) and field_index(D, n) < len(D._all_fields_)
+            and D._all_fields_[field_index(D, n)][0] == n)
+
+
+def field_required(D, f):
+    """neither nullable nor defaulted"""
+    return not getattr(D, f[0]).nullable and getattr(D, f[0]).default is NO_DEFAULT
+
+
+@spec(recursive=True, returns='bool')
+def wf_def_tables(D):
+    """kinds of the reflection tables of a generated struct class"""
+    return (issubclass(D, bb.Struct) and D is not bb.Struct
+            and isinstance(D._all_fields_, list)
+            and isinstance(D._all_field_names_, set)
+            and isinstance(D._has_required_fields, bool))
+
+
+@spec(recursive=True, returns='bool')
+def wf_def_fields(D):
+    """every entry of _all_fields_ is (name, validator) with its descriptor"""
+    return all(wf_field_shape(D, f) for f in D._all_fields_)
+
+
+@spec(recursive=True, returns='bool')
+def wf_def_names(D):
+    """_all_field_names_ is exactly the set of the names in _all_fields_"""
+    return (all(f[0] in D._all_field_names_ for f in D._all_fields_)
+            and all(name_is_field(D, n) for n in D._all_field_names_))
+
+
+@spec(recursive=True, returns='bool')
+def wf_def_required(D):
+    return D._has_required_fields == any(field_required(D, f) for f in D._all_fields_)
+
+
+@spec(recursive=True, returns='bool')
+def wf_def_validators(D):
+    """the field validators are themselves well formed"""
+    return all(wf(f[1]) for f in D._all_fields_)
+
+
+@spec(recursive=True, returns='bool')
+def wf_struct_def(D):
+    """Reflection tables of a generated struct class (what the python_types
+    backend must emit; checked on generated code by the GEN-WF stand-in)."""
+    return (wf_def_tables(D) and wf_def_fields(D) and wf_def_names(D) and wf_def_required(D)
+            and wf_def_validators(D))
+
+
+def wf_tag_entry(D, tag):
+    return isinstance(tag, str) and isinstance(D._tagmap[tag], bv.Validator) and wf(D._tagmap[tag])
+
+
+@spec(recursive=True, returns='bool')
+def wf_union_def(D):
+    return (issubclass(D, bb.Union) and D is not bb.Union
+            and isinstance(D._tagmap, dict)
+            and all(wf_tag_entry(D, tag) for tag in D._tagmap)
+            and (D._catch_all is None
+                 or (isinstance(D._catch_all, str) and D._catch_all in D._tagmap
+                     and isinstance(D._tagmap[D._catch_all], bv.Void)))
+            and isinstance(D._permissioned_tagmaps, set) and len(D._permissioned_tagmaps) == 0)
+
+
+def wf_subtype_entry(D, k):
+    """entry of _pytype_to_tag_and_subtype_: class -> ((tag,), Struct validator of that class)"""
+    e = D._pytype_to_tag_and_subtype_[k]
+    return (isinstance(e, tuple) and len(e) == 2
+            and isinstance(e[0], tuple) and len(e[0]) == 1 and isinstance(e[0][0], str)
+            and isinstance(e[1], bv.Struct) and wf(e[1])
+            and issubclass(e[1].definition, D)
+            and e[0] in D._tag_to_subtype_ and D._tag_to_subtype_[e[0]] is e[1])
+
+
+def wf_tag_to_subtype_entry(D, k):
+    return (isinstance(k, tuple) and len(k) == 1 and isinstance(k[0], str)
+            and isinstance(D._tag_to_subtype_[k], bv.Struct) and wf(D._tag_to_subtype_[k])
+            and issubclass(D._tag_to_subtype_[k].definition, D))
+
+
+@spec(recursive=True, returns='bool')
+def wf_tree_def(D):
+    return (wf_struct_def(D)
+            and isinstance(D._pytype_to_tag_and_subtype_, dict)
+            and isinstance(D._tag_to_subtype_, dict)
+            and isinstance(D._is_catch_all_, bool)
+            and all(wf_subtype_entry(D, k) for k in D._pytype_to_tag_and_subtype_)
+            and all(wf_tag_to_subtype_entry(D, k) for k in D._tag_to_subtype_))
+
+
+# ---------------------------------------------------------------- values of generated classes (C08)
+
+def field_present(v, name):
+    """hasattr(v, name): the field is set, or nullable, or has a default"""
+    a = getattr(type(v), name)
+    return hasattr(v, slot_name(name)) and (
+        raw_slot(v, name) is not NOT_SET or a.nullable or a.default is not NO_DEFAULT)
+
+
+def struct_type_ok(t, v):
+    """the right class; subclasses allowed for structs"""
+    return isinstance(v, t.definition)
+
+
+def struct_fields_ok(t, v):
+    return all(field_present(v, f[0]) for f in t.definition._all_fields_)
+
+
+def valid_struct(t, v):
+    return struct_type_ok(t, v) and struct_fields_ok(t, v)
+
+
+def union_type_ok(t, v):
+    """a parent union is allowed where a child union is expected"""
+    return issubclass(t.definition, type(v))
+
+
+def union_has_tag(v):
+    return hasattr(v, '_tag') and v._tag is not None
+
+
+def valid_union(t, v):
+    return union_type_ok(t, v) and union_has_tag(v)
+
+
+# ---------------------------------------------------------------- functional dict helpers
+
+def dict_with(d, k, v):
+    """d with d[k] = v (a new dict; insertion order kept)"""
+    r = dict(d)
+    r[k] = v
+    return r
+
+
+def dict_update(a, b):
+    """a updated with b (a new dict)"""
+    r = dict(a)
+    r.update(b)
+    return r
